@@ -90,6 +90,11 @@ pub struct Scenario {
     /// was once announced before its parent
     #[serde(default, skip_serializing_if = "std::ops::Not::not")]
     pub peer_strict_orphan: bool,
+    /// header_path 1: these blocks are mined locally instead (they take the `submit_block` header
+    /// check and go to the chain service without any announcement). Never generated; used by
+    /// hand-written scenarios about the two paths running side by side.
+    #[serde(default, skip_serializing_if = "Vec::is_empty")]
+    pub miner_blocks: Vec<usize>,
 }
 
 fn is_zero_u8(x: &u8) -> bool {
@@ -401,6 +406,7 @@ pub fn generate_c07(seed: u64) -> Scenario {
         header_path: 0,
         peer_style: 0,
         peer_strict_orphan: false,
+        miner_blocks: Vec::new(),
     }
 }
 
@@ -856,5 +862,6 @@ pub fn generate(seed: u64, prop: &str) -> Scenario {
         header_path,
         peer_style,
         peer_strict_orphan: false,
+        miner_blocks: Vec::new(),
     }
 }
